@@ -13,7 +13,10 @@ E = EV + "EvolutionSuperOperator."
 
 META = dict(
     category="other",   # deductive proofs plus bounded stand-ins (labelled; not counted as proved)
-    text=("_initialize_data is proved to store the identity superoperator at time zero (both storage modes); "
+    text=("_elemental_step_TimeIndep is proved to fill column (n,m) of the one-step superoperator with the propagated basis "
+          "element E_nm (the matrix handed to the propagator is exactly E_nm for every pair: the element set for the "
+          "previous pair has been reset; the propagator is a stand-in returning an uninterpreted function of the pair); "
+          "_initialize_data is proved to store the identity superoperator at time zero (both storage modes); "
           "_calculate_remainig_using_first_interval and the time-independent branch of calculate_next (incremental mode, "
           "with and without saving) are proved to satisfy the same recurrence U(t_k) = U(dt) o U(t_{k-1}) cell by cell, so "
           "step-by-step and all-at-once evaluation agree; in incremental mode the working array and the cached first "
@@ -89,6 +92,63 @@ def contracts(reg):
                                "forall((a, b, e, f), %s, result[a,b,e,f] == PW(Ndense - 1)[a,b,e,f])" % N4)],
                      loops={0: dict(inv=["forall((a, b, e, f), %s, Udt[a,b,e,f] == PW(_i - 1)[a,b,e,f])" % N4])}))
 
+    # ---- the elemental step: column (n,m) of the one-step superoperator is the propagated basis element E_nm ------------------------------
+    # The propagator is a stand-in: propagate(rho) obliges that rho is exactly the basis element of the current loop
+    # indices (one at (n,m), zero elsewhere: the element set for the previous pair must have been reset) and returns an
+    # evolution whose point 1 is G(n,m)[a,b], an uninterpreted function of the pair.
+    G_re = z3.Function("u_G_re", *([z3.IntSort()] * 4), z3.RealSort())
+    G_im = z3.Function("u_G_im", *([z3.IntSort()] * 4), z3.RealSort())
+
+    def elemental_hook(ex, cinfo, args, kwargs, line):
+        if not getattr(ex, "elemental_protocol", False):
+            return None
+        if cinfo.name == "TimeAxis":
+            return (Obj("TimeAxis(stub)", {"start": args[0], "length": args[1], "step": args[2]}),)
+        if cinfo.name == "ReducedDensityMatrix":
+            d_ = kwargs.get("dim")
+            return (Obj("ReducedDensityMatrix(stub)", {"data": V.lam_array((d_, d_), "cx", lambda idx: 0), "dim": d_}),)
+        if cinfo.name == "ReducedDensityMatrixPropagator":
+            ta_ = args[0]
+
+            def propagate(ex_, a, k, l):
+                rho = a[0]
+                env_ = ex_.frames[-1].env
+                n_, m_ = env_["n"], env_["m"]
+                dim_ = rho.fields["data"].shape[0]
+                i_, j_ = fresh("i", z3.IntSort()), fresh("j", z3.IntSort())
+                cell = Cx.of(rho.fields["data"].get([i_, j_]))
+                want = z3.If(z3.And(i_ == z3int(n_), j_ == z3int(m_)), z3.RealVal(1), z3.RealVal(0))
+                ex_.oblige("basis-element-handed-to-the-propagator",
+                           V.canon_quant([i_, j_], z3.Implies(z3.And(0 <= i_, i_ < z3int(dim_), 0 <= j_, j_ < z3int(dim_)),
+                                                              z3.And(V.z3real(cell.re) == want, V.z3real(cell.im) == 0))),
+                           "precondition", l)
+                ex_.oblige("one-dense-step-propagated", V.z3bool(V.compare("==", ta_.fields["length"], 2)), "precondition", l)
+                return Obj("ReducedDensityMatrixEvolution(stub)", {"data": V.lam_array(
+                    (2, dim_, dim_), "cx", lambda idx: Cx(G_re(z3int(n_), z3int(m_), z3int(idx[1]), z3int(idx[2])),
+                                                           G_im(z3int(n_), z3int(m_), z3int(idx[1]), z3int(idx[2]))))})
+            return (Obj("ReducedDensityMatrixPropagator(stub)", {"propagate": Builtin("prop.propagate", propagate)}),)
+        return None
+    reg.models.hooks_instantiate.insert(0, elemental_hook)
+    reg.models.table["G_elem"] = Builtin("spec:G", lambda ex, a, k, l: Cx(G_re(*[z3int(x) for x in a]), G_im(*[z3int(x) for x in a])))
+
+    def setup_elem(S):
+        n = S.int("N")
+        S.ex.elemental_protocol = True
+        me = S.obj(E[:-1], label="self", ham=S.obj("Hamiltonian(stub)", label="ham", dim=n), relt=None, pdeph=None,
+                   dense_time=S.obj("TimeAxis(stub)", label="dense_time", length=S.int("Ndense"), step=S.real("dstep")))
+        return dict(self=me, t0=S.real("t0"), dens_dt=S.real("dens_dt"), Nt=S.int("Nt"), N=n)
+    COLS = "forall((a, b, p, q), ({pr}, range(0, N), range(0, N), range(0, N)), Ut1[b,p,a,q] == G_elem(a, q, b, p))"
+    ZERO = "forall((i, j), (range(0, N), range(0, N)), rhonm0.data[i,j] == 0)"
+    reg.add(Contract(E + "_elemental_step_TimeIndep", setup=setup_elem, requires=["N >= 0"],
+                     ensures=[("column-nm-is-the-propagated-basis-element",
+                               "forall((a, b, n, m), %s, result[a,b,n,m] == G_elem(n, m, a, b))" % N4)],
+                     loops={0: dict(inv=["forall((a, b, p, q), (range(0, N), range(0, N), range(0, _i), range(0, N)), "
+                                         "Ut1[a,b,p,q] == G_elem(p, q, a, b))", ZERO], modifies=["Ut1", "rhonm0.data", "rhot"]),
+                            1: dict(inv=["forall((a, b, p, q), (range(0, N), range(0, N), range(0, n), range(0, N)), "
+                                         "Ut1[a,b,p,q] == G_elem(p, q, a, b))",
+                                         "forall((a, b, q), (range(0, N), range(0, N), range(0, _i)), Ut1[a,b,n,q] == G_elem(n, q, a, b))",
+                                         ZERO], modifies=["Ut1", "rhonm0.data", "rhot"])}))
+
     # ---- incremental mode ---------------------------------------------------------------------------------------------------
     def setup_next(S, first, save):
         n, nt = S.int("N"), S.int("Nt")
@@ -132,7 +192,7 @@ def contracts(reg):
 def plan(ctx):
     p = Plan("C08")
     contracts(ctx.registry)
-    p.functions = [E + "_initialize_data#all", E + "_initialize_data#jit", E + "calculate_next#first",
+    p.functions = [E + "_elemental_step_TimeIndep", E + "_initialize_data#all", E + "_initialize_data#jit", E + "calculate_next#first",
                    E + "calculate_next#later", E + "calculate_next#later-saving"]
     p.oracles = ["native/oracle_C08.py"]
     # the two recurrences over whole rows need congruence of nested sums under binders, where the SMT back end does not
